@@ -208,3 +208,33 @@ def describe(x):  # noqa: C901
         m, ch = x._same_parts()
         return f'{t.__name__}<{m!r}>(' + ','.join(describe(c) for c in ch) + ')'
     return repr(x)
+
+
+def subobjects(tree, limit=400):
+    """All objects reachable through python containers / harness custom nodes (nodes and leaves)."""
+    out = []
+    seen = set()
+
+    def walk(x):
+        if len(out) >= limit:
+            return
+        out.append(x)
+        if id(x) in seen:
+            return
+        seen.add(id(x))
+        t = type(x)
+        if t in (dict, OrderedDict, defaultdict):
+            for v in x.values():
+                walk(v)
+        elif t in (tuple, list, deque) or (issubclass(t, tuple) and (_is_nt(t) or _is_ss(t))):
+            for v in x:
+                walk(v)
+        elif t is optree.functools.partial:
+            walk(x.args)
+            walk(x.keywords)
+        elif getattr(t, '_same_parts', None) is not None and not isinstance(x, type):
+            for v in x._same_parts()[1]:
+                walk(v)
+
+    walk(tree)
+    return out
